@@ -96,8 +96,8 @@ def xP : Params :=
   { act := ⟨0,0,0,0,0,0,0,0,0,0,0,0,0,0,0,0,0⟩, tickerMax := 63, tickerNames := [], oneWaySet := [],
     snapshotRate := 144, perBlockHolders := 0, perBlockDevs := 0, bankBase := 0, avgPeriod := 8, avgRequired := 4,
     syncVersion := 2, devs := [], «mint» := [], burnAddr := "", oldBurnAddr := "", mintAddr := "", coinbaseAddr := "", zeroAddr := "" }
-example : rateRows xP {} 7 [("PEG", 5), ("USD", 100), ("EUR", 110)] .floating =
-    [{ height := 7, token := "pUSD", value := 100 }, { height := 7, token := "pEUR", value := 110 }, { height := 7, token := "PEG", value := 5 }] := by
+example : (rateRows xP {} 7 [("PEG", 5), ("USD", 100), ("EUR", 110)] .floating).map (fun r => (r.height, r.token, r.value)) =
+    [(7, "pUSD", 100), (7, "pEUR", 110), (7, "PEG", 5)] := by
   decide
 
 end Pegnet.C12
